@@ -351,6 +351,249 @@ fn m11_writer_vs_two_granting_threads() {
     report("m11_writer_vs_two_granting_threads");
 }
 
+/// The writer through the real write path: `poll_write_push` puts a `Push` frame on the outbound queue.
+/// Returns the results (`true` = frame accepted, `false` = refused because closed).
+fn writer_pushes(stream: &MuxStream, times: usize) -> alloc::vec::Vec<bool> {
+    let nw = std::sync::Arc::new(NotifyWaker {
+        notify: Notify::new(),
+        wakes: loom::sync::atomic::AtomicUsize::new(0),
+    });
+    let waker = Waker::from(nw.clone());
+    let cx = Context::from_waker(&waker);
+    let mut out = alloc::vec::Vec::new();
+    for i in 0..times {
+        loop {
+            match stream.poll_write_push(&cx, &[i as u8 + 1]) {
+                Poll::Ready(Some(())) => {
+                    out.push(true);
+                    break;
+                }
+                Poll::Ready(None) => {
+                    out.push(false);
+                    return out;
+                }
+                Poll::Pending => nw.notify.wait(),
+            }
+        }
+    }
+    out
+}
+
+/// `Push` payload bytes found on the outbound queue, in order.
+fn pushed(rx: &mut mpsc::UnboundedReceiver<Message>) -> alloc::vec::Vec<u8> {
+    let mut v = alloc::vec::Vec::new();
+    while let Ok(m) = rx.try_recv() {
+        if let Message::Binary(b) = m {
+            let f = crate::frame::Frame::try_from(b).expect("frame");
+            if f.opcode() == crate::frame::OpCode::Push {
+                match &f.payload {
+                    crate::frame::Payload::Push(crate::frame::PushPayload::Single(d)) => v.extend_from_slice(d.as_ref()),
+                    crate::frame::Payload::Push(crate::frame::PushPayload::Vectored(ds)) => {
+                        for d in ds {
+                            v.extend_from_slice(d.as_ref());
+                        }
+                    }
+                    _ => {}
+                }
+            }
+        }
+    }
+    v
+}
+
+/// 12. real write path: three one-byte writes with one unit available ∥ two granting threads;
+/// every accepted write is exactly one `Push` on the queue, in order, and credit is conserved
+#[test]
+fn m12_push_frames_vs_two_granting_threads() {
+    model(|| {
+        let p = parts(1);
+        let Parts {
+            stream,
+            data,
+            mut tx_msg_rx,
+            ..
+        } = p;
+        let credit = data.psh_send_remaining.clone();
+        let data = Arc::new(data);
+        let d2 = data.clone();
+        let w = thread::spawn(move || {
+            let r = writer_pushes(&stream, 3);
+            (r, stream)
+        });
+        let a = thread::spawn(move || d2.acknowledge(1));
+        data.acknowledge(1);
+        a.join().expect("ack");
+        let (r, stream) = w.join().expect("writer");
+        assert_eq!(r, [true, true, true]);
+        assert_eq!(pushed(&mut tx_msg_rx), [1, 2, 3], "one Push per accepted write, in order");
+        assert_eq!(credit.load(Ordering::SeqCst), 0, "1 initial + 2 granted - 3 sent");
+        outcome(format!("{r:?}"));
+        drop(stream);
+    });
+    report("m12_push_frames_vs_two_granting_threads");
+}
+
+/// 13. four threads: writer wants two units from zero ∥ grant ∥ grant ∥ close
+#[test]
+fn m13_writer_vs_two_grants_vs_close() {
+    model(|| {
+        let p = parts(0);
+        let Parts {
+            stream,
+            data,
+            mut tx_msg_rx,
+            ..
+        } = p;
+        let credit = data.psh_send_remaining.clone();
+        let data = Arc::new(data);
+        let d2 = data.clone();
+        let d3 = data.clone();
+        let w = thread::spawn(move || {
+            let r = writer_pushes(&stream, 2);
+            (r, stream)
+        });
+        let a = thread::spawn(move || d2.acknowledge(1));
+        let b = thread::spawn(move || d3.acknowledge(1));
+        data.disallow_write();
+        a.join().expect("ack");
+        b.join().expect("ack");
+        let (r, stream) = w.join().expect("writer");
+        let left = credit.load(Ordering::SeqCst);
+        let sent = r.iter().filter(|x| **x).count();
+        let frames = pushed(&mut tx_msg_rx);
+        assert_eq!(frames.len(), sent, "frames on the queue = accepted writes");
+        assert_eq!(left as usize + sent, 2, "credit left + frames sent = credit granted");
+        assert!(sent == 2 || r.last() == Some(&false), "a writer short of credit must end up refused after the close");
+        outcome(format!("{r:?} left={left}"));
+        drop(stream);
+    });
+    report("m13_writer_vs_two_grants_vs_close");
+}
+
+/// 14. a longer exchange: five writes with one unit available ∥ grants of 1, 2 and 1 units
+#[test]
+fn m14_five_writes_three_grants() {
+    model(|| {
+        let p = parts(1);
+        let Parts {
+            stream,
+            data,
+            mut tx_msg_rx,
+            ..
+        } = p;
+        let credit = data.psh_send_remaining.clone();
+        let w = thread::spawn(move || {
+            let r = writer_pushes(&stream, 5);
+            (r, stream)
+        });
+        data.acknowledge(1);
+        data.acknowledge(2);
+        data.acknowledge(1);
+        let (r, stream) = w.join().expect("writer");
+        assert_eq!(r, [true; 5]);
+        assert_eq!(pushed(&mut tx_msg_rx), [1, 2, 3, 4, 5]);
+        assert_eq!(credit.load(Ordering::SeqCst), 0, "1 initial + 4 granted - 5 sent");
+        outcome(format!("{r:?}"));
+        drop(stream);
+    });
+    report("m14_five_writes_three_grants");
+}
+
+/// 15. local shutdown on one thread ∥ close by the task ∥ a grant: the closed flag is decided once,
+/// at most one Finish is queued, and the grant is not lost
+#[test]
+fn m15_shutdown_vs_close_vs_grant() {
+    model(|| {
+        let p = parts(0);
+        let Parts {
+            stream,
+            data,
+            mut tx_msg_rx,
+            ..
+        } = p;
+        let credit = data.psh_send_remaining.clone();
+        let data = Arc::new(data);
+        let d2 = data.clone();
+        let w = thread::spawn(move || {
+            stream.do_shutdown();
+            // a write after the local shutdown must be refused whatever the other threads do
+            let r = writer_pushes(&stream, 1);
+            (r, stream)
+        });
+        let a = thread::spawn(move || d2.acknowledge(1));
+        let old = data.disallow_write();
+        a.join().expect("ack");
+        let (r, stream) = w.join().expect("writer");
+        assert_eq!(r, [false], "write after local shutdown was accepted");
+        let mut finishes = 0;
+        let mut pushes = 0;
+        while let Ok(m) = tx_msg_rx.try_recv() {
+            if let Message::Binary(b) = m {
+                match crate::frame::Frame::try_from(b).expect("frame").opcode() {
+                    crate::frame::OpCode::Finish => finishes += 1,
+                    crate::frame::OpCode::Push => pushes += 1,
+                    _ => {}
+                }
+            }
+        }
+        assert_eq!(pushes, 0);
+        assert_eq!(finishes + usize::from(!old), 1, "exactly one side closes the flow");
+        assert_eq!(credit.load(Ordering::SeqCst), 1, "the grant is recorded");
+        outcome(format!("finish_frames={finishes} task_saw_closed={old}"));
+        drop(stream);
+    });
+    report("m15_shutdown_vs_close_vs_grant");
+}
+
+/// 16. two writers (the `&self` API) race for the last unit ∥ a grant of one more: the loser parks
+/// with its waker registered and must be woken by the grant; both end up sending
+#[test]
+fn m16_two_parking_writers_one_credit_vs_grant() {
+    model(|| {
+        let p = parts(1);
+        let Parts { stream, data, .. } = p;
+        let credit = data.psh_send_remaining.clone();
+        let stream = Arc::new(stream);
+        let s2 = stream.clone();
+        let s3 = stream.clone();
+        let a = thread::spawn(move || writer_obtains(&s2, 1));
+        let b = thread::spawn(move || writer_obtains(&s3, 1));
+        data.acknowledge(1);
+        let ra = a.join().expect("writer a");
+        let rb = b.join().expect("writer b");
+        assert_eq!((ra.as_slice(), rb.as_slice()), (&[true][..], &[true][..]));
+        assert_eq!(credit.load(Ordering::SeqCst), 0, "1 initial + 1 granted - 2 sent");
+        outcome(format!("{ra:?}{rb:?}"));
+        drop(stream);
+    });
+    report("m16_two_parking_writers_one_credit_vs_grant");
+}
+
+/// 17. two writers race for the last unit ∥ a close: the loser must be refused, not left asleep
+#[test]
+fn m17_two_parking_writers_one_credit_vs_close() {
+    model(|| {
+        let p = parts(1);
+        let Parts { stream, data, .. } = p;
+        let credit = data.psh_send_remaining.clone();
+        let stream = Arc::new(stream);
+        let s2 = stream.clone();
+        let s3 = stream.clone();
+        let a = thread::spawn(move || writer_obtains(&s2, 1));
+        let b = thread::spawn(move || writer_obtains(&s3, 1));
+        data.disallow_write();
+        let ra = a.join().expect("writer a");
+        let rb = b.join().expect("writer b");
+        let sent = u32::from(ra == [true]) + u32::from(rb == [true]);
+        let left = credit.load(Ordering::SeqCst);
+        assert!(sent <= 1, "one unit of credit allowed {sent} frames");
+        assert_eq!(left + sent, 1, "credit left + frames sent = credit granted");
+        outcome(format!("{ra:?}{rb:?} left={left}"));
+        drop(stream);
+    });
+    report("m17_two_parking_writers_one_credit_vs_close");
+}
+
 // ---- flow-id allocation under concurrent opens (supplements the scheduler-level checks)
 
 #[derive(Debug)]
